@@ -347,6 +347,18 @@ class CropRun:
                 with contextlib.redirect_stdout(io.StringIO()):
                     bad = self.crop.check_bad(delete_bad=False)
                 extra = [sorted(int(b) for b in bad)]
+            elif kind == "tear_check":
+                # the result file is truncated from outside, then check_bad must report (and delete) exactly it
+                import contextlib, io
+                f = os.path.join(self.location(), "results", f"xyz-result-{op[1]}.jbdmp")
+                size = os.path.getsize(f)
+                with open(f, "r+b") as fh:
+                    fh.truncate(max(1, size // 2))
+                with contextlib.redirect_stdout(io.StringIO()):
+                    bad = self.crop.check_bad(delete_bad=not op[2])
+                extra = [sorted(int(b) for b in bad)]
+                if op[2]:
+                    os.remove(f)
             elif kind == "reload":
                 self.crop = self.new_crop()
             elif kind == "query":
@@ -388,6 +400,8 @@ def coq_op(op):
         return f"ODelete {op[1]}"
     if k == "check_bad":
         return "OCheckBad"
+    if k == "tear_check":
+        return f"OTearCheck {op[1]} {'true' if op[2] else 'false'}"
     if k == "check_bad_keep":
         return "OCheckBadKeep"
     if k == "reload":
